@@ -593,10 +593,10 @@ def _bodies():
     seen = set()
     for c in _CHARS:
         for e in _ESCAPES:
-            for b in (c + e, e + c, c + e + c):
-                if b and b not in seen:
-                    seen.add(b)
-                    yield b
+            b = c + e + c
+            if b and b not in seen:
+                seen.add(b)
+                yield b
 
 
 def literal_text(n):
@@ -608,7 +608,7 @@ def literal_text(n):
         return
     for b in bodies:
         for q in _QUOTES:
-            for pre in _F_PREFIXES:
+            for pre in ("f", "rf"):
                 for pos in _F_POSITIONS:
                     yield pre + q + pos.replace("B", b) + q + "\n"
             for pre in ("", "u", "r", "R", "b", "B", "rb", "bR"):
@@ -616,8 +616,11 @@ def literal_text(n):
             other = '"' if q[0] == "'" else "'"
             yield f"f{q}{{f{other}{b}{{y}}{other}}}{q}\n"
             yield f"f{q}{{x:{{f{other}{b}{other}}}}}{q}\n"
+        for pre in _F_PREFIXES:
+            yield f"{pre}'{b}{{x}}{b}'\n"
         yield f"'{b}' f'{{x}}{b}' '{b}'\n"
         yield f"x = (f'{b}'\n     '{b}'\n     f'{{y}}{b}')\n"
+        yield f"x = ['{b}', f'{b}{{y}}{b}']\n"
 
 
 # ----------------------------------------------------------------------------- statement sequences
